@@ -19,4 +19,5 @@ rm -f "target/hang_${PROP}.txt"
 ./target/harness/release/vcheck "$PROP" "$TIER"
 code=$?
 if [ -f "target/hang_${PROP}.txt" ]; then cat "target/hang_${PROP}.txt" >&2; fi
+if [ "$code" = "3" ]; then echo "ABORT: the process was aborted (stack overflow / allocation failure) inside a call into the crate under test; inputs of the calls in flight: target/abort_${PROP}.jsonl ; the run is inconclusive" >&2; code=2; fi
 exit $code
